@@ -114,6 +114,103 @@ def cancelVerdict (impl : Json) (build : Bool) : Verdict :=
     model := toJson set.length, cls := if got == ref then "cancel-too-late" else "cancelled",
     why := if holds then "" else s!"{completions} deliveries; trace {got}; uncancelled session {ref}" }
 
+/-! ### the runner's consumer (`testResults.fetchTrace`), op `results` -/
+
+structure RScript where
+  /-- the tracer operations of the script in the order in which they take effect: those of the
+  main goroutine first, the delayed completions after them, by delay -/
+  base : List TracerSlots.Op
+  /-- name, kind, number of `base` operations that precede the outcome -/
+  outcomes : List (String × String × Nat)
+
+def insertByMs (x : Nat × TracerSlots.Op) : List (Nat × TracerSlots.Op) → List (Nat × TracerSlots.Op)
+  | [] => [x]
+  | y :: ys => if x.1 < y.1 then x :: y :: ys else y :: insertByMs x ys
+
+structure RAcc where
+  seq : List TracerSlots.Op := []
+  delayed : List (Nat × TracerSlots.Op) := []
+  outcomes : List (String × String × Nat) := []
+  ok : Bool := true
+
+def parseResults (steps : List String) : Option RScript :=
+  let acc := steps.foldl (fun (a : RAcc) s =>
+    match s.splitOn ":" with
+    | ["i", n] => { a with seq := a.seq ++ [.init n] }
+    | ["x", n] => { a with seq := a.seq ++ [.clear n] }
+    | ["c", n, t] => match t.toNat? with
+      | some t => { a with seq := a.seq ++ [.complete n t] }
+      | none => { a with ok := false }
+    | ["d", n, t, ms] => match t.toNat?, ms.toNat? with
+      | some t, some ms => { a with delayed := insertByMs (ms, .complete n t) a.delayed }
+      | _, _ => { a with ok := false }
+    | ["o", n, k] => { a with outcomes := a.outcomes ++ [(n, k, a.seq.length)] }
+    | ["s", _] => a
+    | _ => { a with ok := false }) {}
+  let names := acc.outcomes.map (·.1)
+  if acc.ok && names.eraseDups.length == names.length then
+    some ⟨acc.seq ++ acc.delayed.map (·.2), acc.outcomes⟩
+  else none
+
+/-- everything the waiter of an outcome may collect: its Await begins at some point after the
+outcome was recorded (it is a goroutine of its own), `report()` joins it at the end -/
+def alternatives (f : TracerSlots.Name → List TracerSlots.Op → List TracerSlots.Op → Option Nat × Bool)
+    (base : List TracerSlots.Op) (n : String) (i : Nat) : List (Option Nat × Bool) :=
+  ((List.range (base.length - i + 1)).map fun d => f n (base.take (i + d)) (base.drop (i + d))).eraseDups
+
+def encTrace : Option Nat → Int
+  | none => -1
+  | some t => (t : Int)
+
+def resultsVerdict (inp impl : Json) : Verdict :=
+  match parseResults (strList (field inp "steps")) with
+  | none => bad "unparsable results script"
+  | some sc =>
+    let cases := arr (field impl "cases")
+    let report := str (field impl "report")
+    let caseOf (n : String) : Json := (cases.find? (fun c => str (field c "name") == n)).getD Json.null
+    -- per outcome: the admissible alternatives that match what the report showed
+    -- `strict` (model side): the duration class of report() must be the model's; otherwise (the
+    -- property): no wait outlives its context, and nobody waits for a deadline unless some waiter
+    -- has nothing to obtain (returning early from a wait that could only time out loses nothing)
+    let judge (f : TracerSlots.Name → List TracerSlots.Op → List TracerSlots.Op → Option Nat × Bool) (strict : Bool) :
+        Bool × String :=
+      let per := sc.outcomes.zipIdx.map fun ((n, k, i), j) =>
+        let c := caseOf n
+        let printed := int (field c "printed")
+        let stored := int (field c "stored")
+        let failed := bool (field c "failed")
+        let alts := alternatives (fun n b a => f n b a) sc.base n i
+        let _ := j
+        let m := if k == "pass" then (if !failed && printed == -1 && stored == -1 then alts else [])
+                 else if failed && (!strict || stored == printed) then alts.filter (fun a => encTrace a.1 == printed) else []
+        (n, alts, m)
+      let allMatch := per.all (fun p => !p.2.2.isEmpty)
+      let promptOK := per.all (fun p => p.2.2.any (fun a => !a.2))
+      let timeoutOK := allMatch && per.any (fun p => p.2.2.any (fun a => a.2))
+      let ok := allMatch && ((report == "prompt" && (promptOK || !strict)) || (report == "timeout" && timeoutOK))
+      let why :=
+        if ok then "" else
+        match per.find? (fun p => p.2.2.isEmpty) with
+        | some (n, alts, _) =>
+          let c := caseOf n
+          let want : List Int := alts.map (fun (a : Option Nat × Bool) => encTrace a.1)
+          s!"case {n}: the report shows trace {int (field c "printed")} (kept {int (field c "stored")}, failed={bool (field c "failed")}); the waiter must collect one of {want} (-1 = none)"
+        | none => s!"report() returned '{report}' although " ++
+            (if report == "late" then "no wait may outlive its context"
+             else if report == "timeout" then "no waiter has to wait for its deadline"
+             else "a waiter has to wait for its deadline")
+      (ok, why)
+    let model := judge (fun n b a => TracerSlots.collects 100 n b a) true
+    let spec := judge collectSpec false
+    -- a waiter that finds nothing to wait for, or obtains its trace, returns at once; one that
+    -- waits in vain is released by its context: the report is never late
+    { agree := model.1, holds := spec.1,
+      nontrivial := sc.base.any (fun o => match o with | .complete _ _ => true | _ => false),
+      model := toJson (sc.outcomes.map fun (n, _, i) => (alternatives (fun n b a => TracerSlots.collects 100 n b a) sc.base n i).map (fun (a : Option Nat × Bool) => encTrace a.1)),
+      cls := "results:" ++ report,
+      why := if !spec.1 then "runner's waiter: " ++ spec.2 else model.2 }
+
 def handle : Handler := fun op inp impl =>
   if !(isNull (field impl "panic")) then
     { agree := false, holds := false, why := "panic: " ++ str (field impl "panic") } else
@@ -148,6 +245,7 @@ def handle : Handler := fun op inp impl =>
         model := toJson lins.length,
         why := if okSpec then "" else s!"outcome setup={obsS} after={obsA} is produced by none of the {lins.length} linearisations" }
     | _, _, _ => bad "unparsable slot op"
+  | "results" => resultsVerdict inp impl
   | "cancelrt" => cancelVerdict impl false
   | "cancelhandler" => cancelVerdict impl true
   | "builder" =>
@@ -168,13 +266,19 @@ def handle : Handler := fun op inp impl =>
     | none => bad "unparsable builder op"
     | some ths =>
       let named := bool (field inp "named")
-      let got := implCompletions impl
+      -- the distinct outcomes seen over the repetitions (older replay files: one outcome)
+      let gots : List (List (List String)) :=
+        if isNull (field impl "outcomes") then [implCompletions impl]
+        else (arr (field impl "outcomes")).map (fun o => (arr o).map strList)
       let total := ths.foldl (fun a t => a + t.length) 0
       let lins := TracerSlots.interleavings (total + 1) ths
-      let okModel := lins.any fun l => renderDeliveries (Builder.exec (Builder.init named) l).2 == got
-      let okSpec := lins.any fun l => renderDeliveries (deliveries named l) == got
+      let modelOuts := (lins.map fun l => renderDeliveries (Builder.exec (Builder.init named) l).2).eraseDups
+      let specOuts := (lins.map fun l => renderDeliveries (deliveries named l)).eraseDups
+      let okModel := !gots.isEmpty && gots.all modelOuts.contains
+      let okSpec := !gots.isEmpty && gots.all specOuts.contains
       { agree := okModel, holds := okSpec, nontrivial := lins.length > 1, model := toJson lins.length,
-        why := if okSpec then "" else s!"collector got {got}: no linearisation of the threads delivers that" }
+        why := if okSpec then "" else
+          s!"collector got {gots.filter (fun g => !specOuts.contains g)}: no linearisation of the threads delivers that" }
   | _ => bad ("C16: unknown op " ++ op)
 
 end ConfModel.Driver.C16
